@@ -8,7 +8,7 @@
 cd "$(dirname "$0")/.."
 export GOFLAGS=-mod=mod GOPROXY=off GOSUMDB=off GOTOOLCHAIN=local
 id="$1"; miss=0; n=0
-for SD in seeded seeded2 seeded3 seeded4 seeded5 seeded6; do
+for SD in seeded seeded2 seeded3 seeded4 seeded5 seeded6 seeded7; do
   [ -d $SD ] || continue
   for d in $SD/*/; do
     d=${d%/}; [ -f $d/meta.json ] || continue
